@@ -1134,6 +1134,10 @@ pub fn cases(prop: &str, thorough: bool, seed: u64, c: &mut Cases) {
                 c.emit(&format!("bc{n}/arbitrary-words"), &format!("bc {}", join(&ws)));
             }
             let sets = bit_sets(&mut rng, if thorough { 60_000 } else { 6_000 });
+            for &x in sets.iter().take(200) {
+                c.emit("bcops/blank-and-self arguments", &format!("bcops {x} 0"));
+                c.emit("bcops/blank-and-self arguments", &format!("bcops {x} {x}"));
+            }
             for (k, &x) in sets.iter().enumerate() {
                 let y = match k % 4 { 0 => sets[(k * 7 + 3) % sets.len()], 1 => x & rng.next(), 2 => 1u64 << rng.below(64), _ => x | (1u64 << rng.below(64)) };
                 c.emit("bcops/fold_in has count single valid", &format!("bcops {x} {y}"));
@@ -2992,6 +2996,23 @@ fn sweep_c15(seed: u64, thorough: bool) -> Sweep {
             s.fail("peel sequence is not 'members in deck order, then blank without changing the set'", &x.to_string(), &format!("{members:?} then 0 0"), &format!("{trace:?} final {cur}"));
         }
     }
+    {
+        let parts: Vec<Sweep> = par_ranges(0x110000, threads() * 2, |lo, hi| {
+            let mut p = Sweep::default();
+            for cp in lo as u32..hi as u32 {
+                let Some(ch) = char::from_u32(cp) else { continue };
+                let text = format!("AS{ch}KS{ch}{ch}QH x{ch}JD");
+                p.evaluations += 1;
+                let want = spec_tokens(&text).iter().fold(0u64, |a, x| a | bit_of(spec_token(x)));
+                let got = guarded(|| <BinaryCard as BC64>::from_index(&text));
+                if got != Some(want) {
+                    p.fail("set built from text: only white space separates tokens", &format!("{text:?} (U+{cp:04X} between tokens)"), &want.to_string(), &format!("{got:?}"));
+                }
+            }
+            p
+        });
+        for p in parts { s.merge(p); }
+    }
     for t in long_card_texts(&mut rng, if thorough { 4_000 } else { 400 }) {
         s.evaluations += 1;
         s.nontrivial += 1;
@@ -3166,6 +3187,32 @@ fn sweep_c12(seed: u64, thorough: bool) -> Sweep {
     });
     for p in parts { s.merge(p); }
     s.count("every scalar as 1st / 2nd character of a token, through all nine text entry points", 2 * 1_112_064);
+    // every Unicode scalar as a would-be SEPARATOR between two card tokens (and after a token): only white
+    // space separates tokens, through every text entry point
+    let parts: Vec<Sweep> = par_ranges(0x110000, threads() * 2, |lo, hi| {
+        let mut p = Sweep::default();
+        for cp in lo as u32..hi as u32 {
+            let Some(ch) = char::from_u32(cp) else { continue };
+            let text = format!("AS{ch}KS 2C{ch} 3C 4C 5C 6C 7C");
+            let toks = spec_tokens(&text);
+            p.evaluations += 1;
+            for n in 2..=7u64 {
+                let want_h = if toks.len() < n as usize { "none".to_string() } else { join(toks[..n as usize].iter().map(|x| spec_token(x))) };
+                let got = guarded(|| parse_hand(n, &text));
+                if got.as_deref() != Some(&want_h) {
+                    p.fail(&format!("{n}-slot hand parser (separator test)"), &format!("{text:?} (U+{cp:04X} between tokens)"), &want_h, &format!("{got:?}"));
+                }
+            }
+            let want_bc = toks.iter().fold(0u64, |a, x| a | <BinaryCard as BC64>::from_ckc(spec_token(x)));
+            let got_bc = guarded(|| <BinaryCard as BC64>::from_index(&text));
+            if got_bc != Some(want_bc) {
+                p.fail("bit-set from text (separator test)", &format!("{text:?} (U+{cp:04X} between tokens)"), &want_bc.to_string(), &format!("{got_bc:?}"));
+            }
+        }
+        p
+    });
+    for p in parts { s.merge(p); }
+    s.count("every scalar as a separator candidate between card tokens", 1_112_064);
     for w in layout_deck() {
         s.evaluations += 2;
         s.nontrivial += 2;
